@@ -1087,6 +1087,10 @@ func discoverLenBoundedFields(c *Ctx) {
 					continue
 				}
 				x := stripWiden(bo.X)
+				// a constructor of a table type receives MaxTTL as a parameter: what its callers pass
+				if pa, isParam := x.(*ssa.Parameter); isParam {
+					x = stripWiden(c.P.DefX(pa))
+				}
 				isMax := false
 				switch y := x.(type) {
 				case *ssa.UnOp:
